@@ -30,20 +30,20 @@ PROPS: Dict[str, dict] = {
             "explanation": "flags survive every delegation hop (FLAGS); evicted members get index None and a defined state for every member class (BOOK-evict); which subsystems are sampled/destroyed/retired for every flag and argument combination (MEASURE-SET decision table); survivors are conditioned on the drawn outcome and renormalised (COLLAPSE); no functional update is discarded (DISCARD); post-measurement normaliser matches the level (NORM)",
             "declined": "numerical equality of the survivors' state with the projected reference; 'later use raises' (the code relies on incidental assertion failures)"},
     "C06": {"rules": ALL,
-            "explanation": "apply_kraus routing cells (ROUTE, RNB); Kraus terms are summed into a zero-initialised accumulator (KRAUS-SUM); every Kraus update is stored at Matrix level, promotion derived through the callee's level transformer (KRAUS-LEVEL); dimension and completeness checks precede every update (KRAUS-VALID); K rho K^dagger form at all sites (SANDWICH); contraction to a ket only under the purity test (PURITY)",
+            "explanation": "apply_kraus routing cells (ROUTE, RNB); Kraus terms are summed into a zero-initialised accumulator (KRAUS-SUM); every Kraus update is stored at Matrix level, promotion derived through the callee's level transformer (KRAUS-LEVEL); dimension and completeness checks precede every update (KRAUS-VALID); K rho K^dagger form at all sites (SANDWICH); contraction to a ket only under the purity test (PURITY); vectorised channels pair kron(K, conj K) with the row-major flattening; literal contractions of a product space only where the order is established (ESCCALL literal-contraction)",
             "declined": "trace/positivity of the numerical result"},
     "C07": {"rules": ALL,
             "explanation": "normaliser agrees with the representation level at every normalisation site (NORM), renormalisation present in every committing branch (RENORM), all-zero results rejected (ZERO), representation tag and stored data move together incl. member propagation (TAG), no discarded functional update (DISCARD)",
             "declined": "positivity, hermiticity, shape = product of dimensions as numbers"},
     "C08": {"rules": ALL,
-            "explanation": "vector->matrix expansion conjugates exactly the bra factor in all five expanders (OUTER); tag/data pairing and purity-guarded contraction (TAG/PURITY); the contraction switch guards nothing but contract() calls and contract() writes only state and level (CONTRACT-ONLY); expand/contract routing branches can execute (RNB)",
+            "explanation": "vector->matrix expansion conjugates exactly the bra factor in all five expanders (OUTER); tag/data pairing and purity-guarded contraction (TAG/PURITY); the contraction switch guards nothing but contract() calls and contract() writes only state and level (CONTRACT-ONLY); expand/contract routing branches can execute (RNB); the ket that replaces a pure density matrix is a column of eigh(rho)'s eigenvector matrix chosen by the eigenvalues, or a normalised column of rho (CONTRACT-VEC); a label is recognised by an exact entry test or against the whole basis vector (LABEL-EXACT); ket and density-matrix partial traces return the kept members in the same order (ESCCALL sibling clause)",
             "declined": "eigen-decomposition and tolerance arithmetic; equality of twin runs"},
     "C09": {"rules": ALL,
-            "explanation": "POVM probabilities are the trace of the same sandwich the function uses for the post-state (SAMP-f); post-state = sandwich normalised by its trace at Matrix level (SANDWICH, SANDWICH-LIT, NORM, POVM-LEVEL); flags forwarded (FLAGS); routing (ROUTE, RNB); operand binding through generated strings (ESCGEN/ESCCALL)",
+            "explanation": "POVM probabilities are the trace of the same sandwich the function uses for the post-state (SAMP-f); post-state = sandwich normalised by its trace at Matrix level (SANDWICH, SANDWICH-LIT, NORM, POVM-LEVEL); flags forwarded (FLAGS); routing (ROUTE, RNB); operand binding through generated strings (ESCGEN/ESCCALL); survivors are reduced from the post-measurement tensor and the post-state is stored on every path after the draw (COLLAPSE)",
             "declined": "numerical probabilities and post-states"},
     "C10": {"rules": ALL,
-            "explanation": "every dimension commit that may shrink is dominated by a guard equivalent to num_quanta < new_dimensions (linear integer normalisation), success is reported only when dimension and array changed together, padding is zero padding (RESIZE); no write on a path to `return False` (VBC); targets resized to freshly computed operation dimensions (PURE-b); fixed cutoff rules keep every occupied level (BALANCE cutoff clauses)",
-            "declined": "that the automatically estimated cutoff for displacement/squeezing/expressions reproduces the infinite-dimensional result up to the threshold (numerics of expm tails)"},
+            "explanation": "every dimension commit that may shrink is dominated by a guard equivalent to num_quanta < new_dimensions (linear integer normalisation), success is reported only when dimension and array changed together, padding is zero padding (RESIZE); no write on a path to `return False` (VBC); targets resized to freshly computed operation dimensions (PURE-b); fixed cutoff rules keep every occupied level (BALANCE cutoff clauses); the shrink guard reads the occupation of the space that is resized and growth pads the axis the Fock's index names, fixed-axis forms only where every caller establishes the order (RESIZE guard-operand / pad-axis); structural clauses of the estimator: normalised input, trial operation built from the caller's parameters, phase-independent weights, tail guard over the last two levels, cutoff covers the level reached and is raised to num_quanta + 1 (DIM-NORM, EST-TAIL, DIM-FLOOR)",
+            "declined": "the numerical size of expm tails, i.e. that the structural clauses of the estimator together reproduce the infinite-dimensional result up to the threshold for every operator"},
     "C11": {"rules": ALL,
             "explanation": "the beam-splitter arm folds (exact non-commutative polynomial algebra) to expm(i*eta*G) with G Hermitian, number conserving and coupling mode 0 with mode 1; both cutoffs are sum(num_quanta)+k, k>=1; the phase operator folds to diag(exp(i n theta)); ladder operators fold to their definitions (BALANCE, DEFS)",
             "declined": "the SU(2) action and the Mach-Zehnder probabilities as numbers"},
